@@ -68,9 +68,18 @@ func rulePanicCensus(w *World, r *RuleResult) {
 				}
 			}
 		}
+		// flags cleared from the receiver up front (r &^= mask) never reach the switch
+		var masked uint64
+		for _, in := range f.Blocks[0].Instrs {
+			if bo, ok := in.(*ssa.BinOp); ok && bo.Op == token.AND_NOT && bo.X == ssa.Value(f.Params[0]) {
+				if v, ok := condBits(bo.Y); ok {
+					masked |= v
+				}
+			}
+		}
 		var missing []string
 		for _, n := range sortedKeys(cc) {
-			if !seen[cc[n]] {
+			if !seen[cc[n]] && masked&cc[n] == 0 {
 				missing = append(missing, n)
 			}
 		}
